@@ -122,7 +122,8 @@ Definition int_text (t : bytes) : option Z :=
 Definition float_char (b : byte) : bool :=
   is_digit b || beqb b "+"%byte || beqb b "-"%byte || beqb b "."%byte || beqb b "e"%byte || beqb b "E"%byte.
 Definition float_text (t : bytes) : option N :=
-  if forallb float_char t || bytes_eqb t (bs "inf") || bytes_eqb t (bs "-inf") || bytes_eqb t (bs "nan") then
+  if forallb float_char t || bytes_eqb t (bs "inf") || bytes_eqb t (bs "-inf") || bytes_eqb t (bs "nan")
+     || bytes_eqb t (bs "+Inf") || bytes_eqb t (bs "-Inf") || bytes_eqb t (bs "NaN") then   (* fmt's %g spellings *)
     match parse_float t with PFok b => Some b | _ => None end
   else None.
 
